@@ -69,8 +69,11 @@ def run(tier):
     ck.rule("R2.recursion", "recursive cycles of the parser are depth guarded (cycles of the compiler recurse over the AST, which the parser bounds)", floor=8)
     parser_guarded = True
     comps = [c for c in c06.sccs(fx) if c[0].startswith(("parser::", "lexer::", "compiler::"))]
+    from common import load_known
+    known_r2 = {k[1].split("/", 1)[1] for k in load_known() if k[0] == "C05" and k[1].startswith("R2.recursion/")}
     for comp in comps:
-        key = comp[0]
+        # a cycle keeps the name under which it is already listed, whatever helper is extracted from it later
+        key = next((p for p in comp if p in known_r2), None) or comp[0]
         if key.startswith(("parser::", "lexer::")):
             g = c06.depth_guarded(fx, comp) or counter_guarded(fx, comp)
             if not g and not consumes_tokens(fx, comp):
